@@ -384,7 +384,9 @@ func (c *contentValidator) ValidateRequestAccept(ch *aclrecordproto.AclAccountRe
 		return ErrInsufficientPermissions
 	}
 	record, exists := c.aclState.requestRecords[ch.RequestRecordId]
-	if !exists {
+	if !exists || record.Type != RequestTypeJoin {
+		// only join requests can be accepted; accepting a removal request would
+		// re-permission an existing member (e.g. let an admin demote another admin)
 		return ErrNoSuchRequest
 	}
 	acceptIdentity, err := c.keyStore.PubKeyFromProto(ch.Identity)
